@@ -506,7 +506,11 @@ func isQuantityFloor(p *Prog, qS *Sym, recv, minPar *ssa.Parameter) bool {
 	for i, a := range call.Call.Args {
 		role[callee.Params[i].Name()] = argTerm(a)
 	}
-	for _, s := range p.resultSyms(callee, 0) {
+	results, okBig := p.bigResultSyms(callee, 0)
+	if !okBig {
+		return false
+	}
+	for _, s := range results {
 		if k, isK := symConstInt(s); isK && k == 0 {
 			continue
 		}
